@@ -22,6 +22,7 @@ fn fill64(slot: &'i64) -> i32 { return 1; }
 fn show64(v: &i64) -> i32 { return 1; }
 fn showF(v: &f64) -> i32 { return 1; }
 fn takeRefP(p: &P) -> i32 { return p.X; }
+type W struct { .X: i32, .Y: i64, .M: []i32 };
 '''
 PARAMS = "v32: i32, v64: i64, f: f64, s: str, opt: i32?, flag: bool"
 LOCALS = "    let qq: Q = { .X = 1, .Y = 2 } as Q;\n    let lw: i64 = 5;\n    let loc: i32 = 0;\n    let pp: P = { .X = 1, .Y = 2 } as P;\n    let dr: []i32 = [1, 2, 3];\n    let lo: i32 = 0;\n    let hi: i32 = 2;\n"
@@ -70,6 +71,9 @@ EXPR_CTX = {
     # positions that do not force a type on the expression: only its own errors count there
     "compare-operand": "if {E} > 0 {{ }}", "dyn-index": "let zz: i32 = dr[{E}];", "match-scrutinee": "match {E} {{ 1 => {{ }} _ => {{ }} }}", "parenthesised-cast": "let zz: i64 = ({E}) as i64;", "println-arg": "io::Println({E});",
 }
+# positions whose target goes through the receiver of a method (hosts: value receiver — the write only draws a warning — and `&'` receiver)
+RECV_CTX = {"recv-field-assign": "self.X = {E};", "recv-field-compound": "self.X += {E};", "recv-append": "append(&'self.M, {E});", "recv-elem-assign": "self.M[0] = {E};",
+            "recv-field-assign-in-if": "if flag {{ self.X = {E}; }}", "recv-field-assign-in-closure": "let cl := fn() {{ self.X = {E}; }};"}
 UNTYPED_CTX = {"compare-operand", "dyn-index", "match-scrutinee", "parenthesised-cast", "println-arg"}
 # statement positions: template with {S}; "ret" = result type of the function the statement ends up in
 STMT_CTX = {
@@ -83,7 +87,9 @@ STMT_CTX = {
 
 def host(stmt_text, kind):
     """the program around one statement text; kind: function / method / void function"""
-    if kind == "method":
+    if kind in ("value-recv", "mut-recv"):
+        fn = "fn (self: %s) host(%s) -> i32 {\n%s    %s\n    return 0;\n}\n" % ("W" if kind == "value-recv" else "&'W", PARAMS, LOCALS, stmt_text)
+    elif kind == "method":
         fn = "fn (self: &'P) host(%s) -> i32 {\n%s    %s\n    return 0;\n}\n" % (PARAMS, LOCALS, stmt_text)
     elif kind == "void-fn":
         fn = "fn host(%s) {\n%s    %s\n}\n" % (PARAMS, LOCALS, stmt_text)
@@ -111,6 +117,12 @@ def main():
             cases.append(("good|%s|%s" % (cn, g), None, host(tmpl.format(E=g), "fn"), False))
         for rule, e in BAD_EXPR + ([] if cn in UNTYPED_CTX else BAD_EXPR_I32):
             for hk in (["fn"] if tier == "quick" and rng.below(3) else ["fn", "method"]):
+                cases.append(("%s|%s|%s|%s" % (rule, cn, e, hk), rule, host(tmpl.format(E=e), hk), True))
+    for cn, tmpl in RECV_CTX.items():
+        for hk in ("value-recv", "mut-recv"):
+            for g in GOOD_EXPR[:3]:
+                cases.append(("good|%s|%s|%s" % (cn, g, hk), None, host(tmpl.format(E=g), hk), False))
+            for rule, e in BAD_EXPR_I32 + [x for x in BAD_EXPR if tier != "quick" or rng.below(4) == 0]:
                 cases.append(("%s|%s|%s|%s" % (rule, cn, e, hk), rule, host(tmpl.format(E=e), hk), True))
     for cn, (tmpl, ret) in STMT_CTX.items():
         for g in GOOD_STMT:
@@ -183,8 +195,8 @@ def main():
     cov = {
         "explanation": "PARTIAL: the type checker, resolver and collector are not modelled. Kernel-checked: (over the compatibility table regenerated from the current code) no numeric conversion that can lose a value and no float->int conversion is "
                        "implicit, and distinct numeric types are never `identical` (so mixed arithmetic needs a cast); an error recorded by any front phase makes the exit status 1 and prevents the artefact. Executed: every ill-typed construct "
-                       "(%d expression forms, %d statement forms, %d return forms, %d declaration forms, covering the %d rule classes of the property) in every syntactic position (%d expression positions, %d statement positions, function / method hosts) "
-                       "must be rejected; each position is also compiled with well-typed fillers and must be accepted." % (len(BAD_EXPR), len(BAD_STMT), len(BAD_RET), len(DECLS), len({r for r, _ in BAD_EXPR} | {r for r, _ in BAD_STMT} | {r for r, _, _ in BAD_RET}), len(EXPR_CTX), len(STMT_CTX)),
+                       "(%d expression forms, %d statement forms, %d return forms, %d declaration forms, covering the %d rule classes of the property) in every syntactic position (%d expression positions, %d statement positions, function / method hosts; targets through a value receiver and a `&'` receiver) "
+                       "must be rejected; each position is also compiled with well-typed fillers and must be accepted." % (len(BAD_EXPR), len(BAD_STMT), len(BAD_RET), len(DECLS), len({r for r, _ in BAD_EXPR} | {r for r, _ in BAD_STMT} | {r for r, _, _ in BAD_RET}), len(EXPR_CTX) + len(RECV_CTX), len(STMT_CTX)),
         "obligations": len(names), "discharged": discharged,
         "checker_cmd": "cd /verif/lean && lake build FerretVerif.Props.C03 && #print axioms per theorem",
         "trusted_base": ["Lean 4 kernel", "axioms: " + ", ".join(sorted({a for v in axioms.values() if v for a in v})), "gohook extraction of the compatibility table", "the templates (each ill-typed construct is ill-typed by the language rules the property lists)", "diagnostic parser"],
